@@ -332,6 +332,7 @@ def judge_resolver_no_items(res, st, perm, mode, tmpdir):
         8: {"name": "q8", "priority": 20, "vars": {"x": 8}, "postprocessing": [{"id": "post8", "type": "simple_template", "template": "T8 {query} u={pipeline.vars[u]} T8"}],
             "finalizers": [{"type": "concat", "separator": "+", "prefix": "<8 ", "suffix": " 8>"}]},
         9: {"name": "q9", "priority": 10, "vars": {"u": "nine", "y": 9}},  # nothing but variables
+        10: {"name": "Q8", "priority": 20, "vars": {"u": "upper"}, "postprocessing": [{"id": "postU", "type": "embed", "prefix": "[U ", "suffix": " U]"}]},  # 'Q8' < 'q7' < 'q8
     }
     case = {"kind": "resolver-no-items", "perm": list(perm), "mode": mode}
     res["evaluations"] += 1
@@ -345,7 +346,7 @@ def judge_resolver_no_items(res, st, perm, mode, tmpdir):
     else:
         resolver, specs, key = ProcessingPipelineResolver(), [], {}
         for i in perm:
-            path = os.path.join(tmpdir, f"{'dcba'[i - 6]}_noitems{i}.yml")
+            path = os.path.join(tmpdir, f"{'edcba'[i - 6]}_noitems{i}.yml")
             with open(path, "w") as f:
                 yaml.safe_dump(defs[i], f)
             specs.append(path)
@@ -354,17 +355,18 @@ def judge_resolver_no_items(res, st, perm, mode, tmpdir):
     vars_ = {}
     for i in order:
         vars_.update(defs[i]["vars"])
-    q = '`f`="x"'
     failed = None
-    for i in order:
-        for pp in defs[i].get("postprocessing", []):
-            if pp["type"] == "embed":
-                q = pp["prefix"] + q + pp["suffix"]
-            elif "u" in vars_:
-                q = f"T8 {q} u={vars_['u']} T8"
-            else:
-                failed = ("err", "KeyError")
-    out = [q]
+    out = []
+    for q in ('`f`="x"', '`f`="y"'):  # the probe rule has two conditions: post-processing applies to every emitted query
+        for i in order:
+            for pp in defs[i].get("postprocessing", []):
+                if pp["type"] == "embed":
+                    q = pp["prefix"] + q + pp["suffix"]
+                elif "u" in vars_:
+                    q = f"T8 {q} u={vars_['u']} T8"
+                else:
+                    failed = ("err", "KeyError")
+        out.append(q)
     for i in order:
         for f in defs[i].get("finalizers", []):
             out = f["prefix"] + f["separator"].join(out) + f["suffix"]
@@ -372,7 +374,7 @@ def judge_resolver_no_items(res, st, perm, mode, tmpdir):
     try:
         comb = resolver.resolve(specs)
         b = V.make_backend_class(K, fresh=True)(comb)
-        got_out = b.convert(SigmaCollection([SigmaRule.from_dict({"title": "plain", "logsource": {"category": "c"}, "detection": {"sel": {"f": "x"}, "condition": "sel"}})]))
+        got_out = b.convert(SigmaCollection([SigmaRule.from_dict({"title": "plain", "logsource": {"category": "c"}, "detection": {"sel": {"f": "x"}, "sel2": {"f": "y"}, "condition": ["sel", "sel2"]}})]))
         lp = b.last_processing_pipeline
         got = ("ok", got_out, sorted((k, v) for k, v in lp.vars.items() if not k.startswith("backend") and k != "output_format"))
     except Exception as e:
@@ -561,7 +563,7 @@ def run_shard(shard, tier, seed):
                         for twice in (False, True):
                             judge_resolver(res, st, n, perm, mode, twice, tmpdir)
             for m in (1, 2, 3, 4):
-                for perm in itertools.permutations((6, 7, 8, 9), m):
+                for perm in itertools.permutations((6, 7, 8, 9, 10), m):
                     for mode in ("names", "files"):
                         judge_resolver_no_items(res, st, perm, mode, tmpdir)
             res["samples"].append({"kind": "resolver", "perm": list(range(n, 0, -1)), "mode": "files"})
